@@ -509,6 +509,36 @@ func TestVfPhantom(t *testing.T) {
 			default:
 				valid = vfLink(vpn, 0x0800, vfIP4(5, 6, 0x4000, 64, in, vfTCP(4444, 40000, 0x12, 8, []byte{7, 7})))
 			}
+			// zero-valued and extreme fields in the very first frame a fresh processor sees (state that starts as the zero value
+			// must not pass for "same as the last frame"): source 0.0.0.0 / port 0 / no flags / type 0 code 0 ttl 0 / all-zero MAC
+			for _, src := range []net.IP{net.IPv4(0, 0, 0, 0), net.IPv4(255, 255, 255, 255), net.IPv4(0, 0, 0, 1), net.IPv4(127, 0, 0, 1)} {
+				for _, zero := range []bool{true, false} {
+					fr := vfNewRcvMode(t, vfRcvCfg{Scan: sc, Vpn: vpn}, true)
+					var f []byte
+					switch {
+					case sc == "arp" && zero:
+						f = append(vfEth(0x0806), vfARP(2, 1, 0x0800, 6, 4, []byte{0, 0, 0, 0, 0, 0}, src.To4())...)
+					case sc == "arp":
+						f = append(vfEth(0x0806), vfARP(2, 1, 0x0800, 6, 4, []byte{255, 255, 255, 255, 255, 255}, src.To4())...)
+					case (sc == "icmp" || sc == "udp") && zero:
+						f = vfLink(vpn, 0x0800, vfIP4(5, 1, 0, 0, src, vfICMP(0, 0, nil)))
+					case sc == "icmp" || sc == "udp":
+						f = vfLink(vpn, 0x0800, vfIP4(5, 1, 0, 255, src, vfICMP(255, 255, nil)))
+					case zero && sc == "tcpsyn":
+						f = vfLink(vpn, 0x0800, vfIP4(5, 6, 0, 0, src, vfTCP(0, 0, 0x12, 5, nil)))
+					case zero:
+						f = vfLink(vpn, 0x0800, vfIP4(5, 6, 0, 0, src, vfTCP(0, 0, 0, 5, nil)))
+					default:
+						f = vfLink(vpn, 0x0800, vfIP4(5, 6, 0, 255, src, vfTCP(65535, 65535, 0x1ff, 5, nil)))
+					}
+					for k := 0; k < 2; k++ {
+						id++
+						status, recs, text := fr.process(f)
+						out.write([]map[string]interface{}{{"ev": "Frame", "id": id, "scan": sc, "vpn": vpn, "bytes": vfInts(f), "status": status, "nrec": len(recs),
+							"rec": vfRecOf(sc, recs), "text": text}})
+					}
+				}
+			}
 			// the valid frame, then every truncation of it -- each after a valid frame, so stale decoder state would show
 			emit(valid)
 			for n := 0; n < len(valid); n++ {
@@ -533,7 +563,9 @@ func TestVfPhantom(t *testing.T) {
 			if sc == "arp" {
 				// address sizes and types that are not Ethernet/IPv4
 				for _, hp := range [][4]int{{1, 0x0800, 0, 0}, {1, 0x0800, 3, 2}, {1, 0x0800, 8, 16}, {1, 0x0800, 128, 0}, {1, 0x0800, 6, 16}, {6, 0x0800, 6, 4}, {1, 0x86dd, 6, 4},
-					{0x0101, 0x0800, 6, 4}, {1, 0x0800, 1, 4}, {1, 0x0800, 6, 1}, {1, 0x0800, 255, 255}} {
+					{0x0101, 0x0800, 6, 4}, {1, 0x0800, 1, 4}, {1, 0x0800, 6, 1}, {1, 0x0800, 255, 255},
+					// sizes that are wrong but add up to the 10 address bytes of an Ethernet/IPv4 body (same frame length)
+					{1, 0x0800, 7, 3}, {1, 0x0800, 8, 2}, {1, 0x0800, 4, 6}, {1, 0x0800, 2, 8}, {1, 0x0800, 10, 0}, {1, 0x0800, 0, 10}, {1, 0x0800, 5, 5}, {1, 0x0800, 9, 1}} {
 					sha := make([]byte, hp[2])
 					spa := make([]byte, hp[3])
 					rnd.Read(sha)
